@@ -457,6 +457,24 @@ func genC01(seed, index uint64, tier string) *Plan {
 		}
 		p.Steps = append(p.Steps, Step{Op: &op})
 	}
+	if !long && g.Chance(0.05) {
+		// name re-use over a pruned history: the low revision numbers are gone, the release was uninstalled with its history
+		// kept, a first install --replace is refused half-way by the cluster (failed revision), a second one follows
+		p.Steps = nil
+		p.Steps = append(p.Steps, Step{Op: &OpSpec{Op: "install", Chart: 0, TimeoutS: 60}})
+		for k := 0; k < 2+g.N(2); k++ {
+			p.Steps = append(p.Steps, Step{Op: &OpSpec{Op: "upgrade", Chart: g.N(len(p.Charts)), MaxHistory: 2, TimeoutS: 60}})
+		}
+		p.Steps = append(p.Steps, Step{Op: &OpSpec{Op: "uninstall", KeepHistory: true, TimeoutS: 60}})
+		first := Step{Op: &OpSpec{Op: "install", Chart: g.N(len(p.Charts)), Replace: true, NoHooks: true, TimeoutS: 60}}
+		first.Faults = []FaultSpec{{Kind: FReject, Code: 403, Pred: &Pred{Storage: boolp(false), Mutating: boolp(true), PathHas: "/namespaces/", Nth: 1}}}
+		p.Steps = append(p.Steps, first)
+		p.Steps = append(p.Steps, Step{Op: &OpSpec{Op: "install", Chart: g.N(len(p.Charts)), Replace: true, TimeoutS: 60}})
+		p.Variant = "replace-chain"
+		p.Policy = "uniform"
+		p.Schedule = g.Schedule(48)
+		return p.Clone()
+	}
 	switch g.Weighted(3, 5, 3) {
 	case 0:
 		p.Variant = "clean"
